@@ -341,7 +341,11 @@ def seq_key(seq) -> tuple:
     reg = seq.register
     rk = tuple((q, tuple(round(float(x), 9) for x in np.atleast_1d(observe._arr(c)))) for q, c in reg.qubits.items())
     fl = tuple((k, snap.flags[k]) for k in ("measured", "measure_basis", "in_xy", "in_ising", "slm_targets", "mag_field", "parametrized"))
-    return (snap.timeline_key(), snap.phase_key(), fl, rk)
+    # phase references of the atoms of the register: a sequence built with a
+    # partial mapping keeps (unused) entries for the qubits that were left out
+    present = set(reg.qubits)
+    pk = tuple((b, tuple((q, v) for q, v in refs if q in present)) for b, refs in snap.phase_key())
+    return (snap.timeline_key(), pk, fl, rk)
 
 
 _TWO_PI = 2 * math.pi
@@ -618,7 +622,25 @@ def gen_template_world(seed: int, prop: str, run: int, profile: dict) -> dict:
         for _ in range(2):
             chosen = vr.sample(range(nt), nq)
             maps.append({q: t for q, t in zip(reg["ids"], chosen)})
-        # a partial mapping (subset of qubits) is legal when unused qubits are not targeted
+        # a partial mapping (the first k declared ids) is legal when the other
+        # qubits are never named by the program
+        def _named(o):
+            out = []
+            for key in ("initial_target", "qubits", "targets"):
+                val = o.get(key)
+                if val is None:
+                    continue
+                out += list(val) if isinstance(val, (list, tuple)) else [val]
+            return out
+
+        named = [x for o in program for x in _named(o)]
+        by_index = any(o["op"] in ("target_index", "phase_shift_index") for o in program)
+        if not by_index and all(isinstance(x, str) and x in reg["ids"] for x in named):
+            k_min = max([reg["ids"].index(x) + 1 for x in named] or [1])
+            if k_min < nq and vr.random() < 0.6:
+                k = vr.randint(k_min, nq - 1)
+                chosen = vr.sample(range(nt), k)
+                maps.append({q: t for q, t in zip(reg["ids"][:k], chosen)})
         world["mappings"] = maps
     return world
 
